@@ -61,8 +61,11 @@ private:
   void execute() noexcept { this->execute_(this); }
 
   thread_unsafe_event_loop& loop_;
-  operation_base* next_;
-  operation_base** prevPtr_;
+  // prevPtr_ == nullptr means "not in the queue"; the cancel callback checks it
+  // and may run before the operation has been enqueued for the first time
+  // (stop already requested when the operation is started)
+  operation_base* next_ = nullptr;
+  operation_base** prevPtr_ = nullptr;
   execute_fn* execute_;
 
 protected:
